@@ -129,7 +129,7 @@ def monitor(sc, res):
 
 def run(ctx):
     rnd = random.Random(ctx.seed * 104729 + 4)
-    ok = fw.regen(ctx) and fw.lake_build(ctx, ["MhlModel", "MhlProps.C04"])
+    ok = fw.regen(ctx) and fw.lake_build(ctx, ["MhlModel"] + ["MhlProps." + m for m in fw.modules_for("C04")])
     if ok:
         fw.audit(ctx)
         if ctx.thorough:
